@@ -250,4 +250,42 @@ def bytesToString (bs : List UInt8) : List UInt8 × Bool :=
       | none => bs.length - 1
     (bs.take e, (bs.drop e).any (· != 0))
 
+/-! ### Specification vocabulary for field sequences -/
+
+/-- well-formed field: what the writer's API accepts (`i32`, NUL-free string, `len` fits `i32`) -/
+def Field.wf : Field → Prop
+  | .int v => inI32 v
+  | .str s => ∀ b ∈ s, b ≠ 0
+  | .data d => d.length < 2 ^ 31
+  | .raw _ => True
+
+/-- the bytes a field is encoded to -/
+def Field.encode : Field → List UInt8
+  | .int v => writeInt v
+  | .str s => s ++ [0]
+  | .data d => writeInt d.length ++ d
+  | .raw d => d
+
+def totalLen (fs : List Field) : Nat := (fs.map Field.encodedLength).sum
+def encodeAll (fs : List Field) : List UInt8 := fs.flatMap Field.encode
+
+/-! ### The value `doc/int.md` prescribes (independent of `readInt`) -/
+
+/-- digits of the continuation bytes, little endian, 7 bits each (`doc/int.md`) -/
+def tailMag : List UInt8 → Nat
+  | [] => 0
+  | b :: tl => b.toNat % 128 + 128 * tailMag tl
+
+/-- the magnitude `doc/int.md` assigns to an encoded integer: 6 bits of the first byte, then
+7 bits of each following byte, little endian -/
+def docMag : List UInt8 → Nat
+  | [] => 0
+  | b0 :: tl => b0.toNat % 64 + 64 * tailMag tl
+
+/-- the value `doc/int.md` assigns: the sign flag flips all bits of the magnitude -/
+def docValue (c : List UInt8) : Int :=
+  match c with
+  | [] => 0
+  | b0 :: _ => if (b0.toNat / 64) % 2 = 1 then -(docMag c : Int) - 1 else (docMag c : Int)
+
 end Tw.Packer
